@@ -407,3 +407,183 @@ Proof.
   - symmetry. apply map_id.
   - rewrite IH, map_map. reflexivity.
 Qed.
+
+(* ====================================================================== *)
+(* the rows the loader tabulates *)
+Definition kept_cols (c : cover) : list nat := filter (fun j => has_size c (S j)) (seq 0 (largest c)).
+
+Lemma filter_map_comm {A B} (q : B -> bool) (h : A -> B) l : filter q (map h l) = map h (filter (fun x => q (h x)) l).
+Proof. induction l as [|x l IH]; [reflexivity|]. cbn [map filter]. destruct (q (h x)); cbn [map]; rewrite IH; reflexivity. Qed.
+
+Lemma existsb_len_has_size c s : existsb (Nat.eqb s) (map (@length Z) c) = has_size c s.
+Proof.
+  unfold has_size. induction c as [|cl c IH]; [reflexivity|]. cbn [map existsb]. rewrite IH, (Nat.eqb_sym s). reflexivity.
+Qed.
+
+Lemma motif_sizes_kept c : Forall (fun cl => cl <> []) c -> motif_sizes c = map S (kept_cols c).
+Proof.
+  intros Hne. unfold motif_sizes, sorted_set, kept_cols, largest.
+  set (w := fold_right Nat.max 0 (map (@length Z) c)). cbn [seq filter].
+  rewrite existsb_len_has_size.
+  assert (H0 : has_size c 0 = false).
+  { unfold has_size. destruct (existsb _ c) eqn:E; [|reflexivity]. apply existsb_exists in E.
+    destruct E as (cl & Hcl & E). apply Nat.eqb_eq in E. rewrite Forall_forall in Hne.
+    specialize (Hne cl Hcl). destruct cl; [contradiction|discriminate]. }
+  rewrite H0. rewrite <- seq_shift, filter_map_comm. f_equal. apply filter_ext. intros j.
+  apply existsb_len_has_size.
+Qed.
+
+Lemma map_via_seq {A B} (F : A -> B) (l : list A) d :
+  map F l = map (fun r => F (nth r l d)) (seq 0 (length l)).
+Proof. rewrite (map_nth_seq l d) at 1. rewrite map_map. reflexivity. Qed.
+
+Theorem cover_rows_spec c zero :
+  ValidCover c zero ->
+  cover_rows c = Ok (map (fun r => spec_row c (motif_sizes c) (zero + Z.of_nat r))
+                         (seq 0 (length (vertex_ids c)))).
+Proof.
+  intros V. unfold cover_rows. rewrite (valid_zmin c zero V).
+  assert (Ez : (if Z.eqb zero 0 then 0%Z else 1%Z) = zero) by (destruct (vc_zero _ _ V) as [->| ->]; reflexivity).
+  rewrite Ez. destruct (cover_table c zero V) as (t & Ht & Hlen & Hrect & G). rewrite Ht. f_equal.
+  rewrite delete_cols_rows. rewrite (motif_sizes_kept c (vc_nonempty _ _ V)).
+  rewrite (map_via_seq _ t []). rewrite Hlen. apply map_ext_in. intros r Hr. apply in_seq in Hr.
+  unfold zero_cols. rewrite del_all_filter by (apply (rect_nth (largest c)); [exact Hrect|lia]).
+  unfold spec_row, kept_cols. rewrite map_map.
+  rewrite (filter_ext_in (fun j => negb (forallb (fun row => Z.eqb (nth j row 0%Z) 0) t)) (fun j => has_size c (S j))).
+  - apply map_ext_in. intros j Hj. apply filter_In in Hj. destruct Hj as [Hj _]. apply in_seq in Hj.
+    fold (get t r j). apply G; lia.
+  - intros j Hj. apply in_seq in Hj. rewrite (zero_col_iff c zero t j V Hlen G) by lia. apply negb_involutive.
+Qed.
+
+(* number of columns = number of reported sizes *)
+Corollary cover_rows_width c zero rows :
+  ValidCover c zero -> cover_rows c = Ok rows -> Forall (fun row => length row = length (motif_sizes c)) rows.
+Proof.
+  intros V E. rewrite (cover_rows_spec c zero V) in E. injection E as <-. apply Forall_map.
+  apply Forall_forall. intros r _. unfold spec_row. apply map_length.
+Qed.
+
+(* ====================================================================== *)
+(* specification, checker equivalence, and the model satisfies it *)
+Definition CoverSpec (c : cover) (sizes : list nat) (obs : dist) : Prop :=
+  SizesSpec c sizes /\
+  (let rows := map (spec_row c sizes) (vertex_ids c) in
+   LawSpec tol (fun k => In k rows) (fun k => qfrac (count_key k rows) (length (vertex_ids c))) obs) /\
+  NonNeg obs.
+
+Theorem cover_check_iff c sizes obs : cover_check c sizes obs = true <-> CoverSpec c sizes obs.
+Proof.
+  unfold cover_check, CoverSpec. rewrite !andb_true_iff, sizes_check_iff, nonneg_vals_iff.
+  rewrite (law_check_iff tol _ (fun k => In k (map (spec_row c sizes) (vertex_ids c))))
+    by (intros k; apply first_occ_In).
+  tauto.
+Qed.
+
+Lemma count_key_perm k l1 l2 : Permutation l1 l2 -> count_key k l1 = count_key k l2.
+Proof. induction 1; cbn [count_key]; lia. Qed.
+
+Lemma valid_ids_perm c zero :
+  ValidCover c zero ->
+  Permutation (vertex_ids c) (map (fun r => (zero + Z.of_nat r)%Z) (seq 0 (length (vertex_ids c)))).
+Proof.
+  intros V. apply NoDup_Permutation.
+  - apply znodup_NoDup.
+  - apply FinFun.Injective_map_NoDup; [intros a b H; lia|apply seq_NoDup].
+  - intros x. unfold vertex_ids at 1. rewrite znodup_In, (vc_contig _ _ V), in_map_iff. split.
+    + intros H. exists (Z.to_nat (x - zero)). split; [lia|apply in_seq; lia].
+    + intros (r & <- & Hr). apply in_seq in Hr. lia.
+Qed.
+
+Theorem cover_loader_satisfies_spec c zero :
+  ValidCover c zero ->
+  exists rows d, cover_loader c = Ok (motif_sizes c, rows, d) /\ d = empirical rows /\
+                 CoverSpec c (motif_sizes c) d.
+Proof.
+  intros V. unfold cover_loader. rewrite (cover_rows_spec c zero V).
+  set (n := length (vertex_ids c)). set (sizes := motif_sizes c).
+  set (rows := map (fun r => spec_row c sizes (zero + Z.of_nat r)) (seq 0 n)).
+  exists rows, (empirical rows). split; [reflexivity|]. split; [reflexivity|].
+  assert (P : Permutation (map (spec_row c sizes) (vertex_ids c)) rows).
+  { unfold rows. rewrite <- (map_map (fun r => (zero + Z.of_nat r)%Z) (spec_row c sizes)).
+    apply Permutation_map. apply valid_ids_perm. exact V. }
+  assert (Hlen : length rows = n) by (unfold rows; rewrite map_length, seq_length; reflexivity).
+  split; [apply motif_sizes_spec|]. split; [|apply empirical_nonneg].
+  cbv zeta. destruct (empirical_spec tol rows tol_nonneg) as (H1 & H2 & H3). split; [exact H1|]. split.
+  - intros k. rewrite H2. split; intros H.
+    + eapply Permutation_in; [apply Permutation_sym; exact P|exact H].
+    + eapply Permutation_in; [exact P|exact H].
+  - eapply Forall_impl; [|exact H3]. intros [k v] H. cbn [fst snd] in *.
+    rewrite (count_key_perm k _ _ P). rewrite Hlen in H. exact H.
+Qed.
+
+(* the clique-size profile: column j of the tabulated rows totals size_j * #cliques of that size *)
+Lemma count_cl_sum c s (vs : list Z) :
+  NoDup vs -> Forall (fun cl => NoDup cl) c -> (forall cl x, In cl c -> In x cl -> In x vs) ->
+  list_sum (map (count_cl c s) vs) = s * length (filter (fun cl => length cl =? s) c).
+Proof.
+  intros Hvs Hnd Hin. induction c as [|cl c IH].
+  - assert (Z0 : forall l : list Z, list_sum (map (count_cl [] s) l) = 0) by (induction l; cbn; auto).
+    rewrite Z0. cbn. lia.
+  - inversion Hnd as [|? ? Hcl Hnd']; subst.
+    rewrite (map_ext _ (fun v => (if (length cl =? s) && zmem v cl then 1 else 0) + count_cl c s v))
+      by (intros v; apply count_cl_cons).
+    assert (Split : forall (f g : Z -> nat) l, list_sum (map (fun v => f v + g v) l) = list_sum (map f l) + list_sum (map g l)).
+    { intros f g l. induction l as [|y l IHl]; [reflexivity|]. cbn [map]. rewrite !list_sum_cons, IHl. lia. }
+    rewrite Split, IH; [|exact Hnd'|intros cl0 x H1 H2; apply (Hin cl0 x); [right; exact H1|exact H2]].
+    cbn [filter]. destruct (Nat.eqb_spec (length cl) s) as [Es|Es]; cbn [andb length].
+    + assert (Hc : list_sum (map (fun v => if zmem v cl then 1 else 0) vs) = length cl).
+      { assert (Hsub : forall x, In x cl -> In x vs) by (intros x Hx; apply (Hin cl x); [left; reflexivity|exact Hx]).
+        clear - Hvs Hcl Hsub. revert cl Hcl Hsub. induction vs as [|v vs IHv]; intros cl Hcl Hsub.
+        - destruct cl as [|x cl]; [reflexivity|]. destruct (Hsub x (or_introl eq_refl)).
+        - inversion Hvs as [|? ? Hv Hvs']; subst. cbn [map]. rewrite list_sum_cons.
+          destruct (zmem v cl) eqn:M.
+          + apply zmem_In in M. destruct (in_split _ _ M) as (l1 & l2 & ->).
+            assert (Hcl' : NoDup (l1 ++ l2)) by (apply NoDup_remove_1 in Hcl; exact Hcl).
+            assert (Hv' : ~ In v (l1 ++ l2)) by (apply NoDup_remove_2 in Hcl; exact Hcl).
+            rewrite (map_ext_in _ (fun y => if zmem y (l1 ++ l2) then 1 else 0)).
+            * rewrite (IHv Hvs' (l1 ++ l2) Hcl').
+              -- rewrite !app_length. cbn [length]. lia.
+              -- intros x Hx. assert (Hx' : In x (l1 ++ v :: l2)) by (apply in_app_iff in Hx; apply in_app_iff; cbn; tauto).
+                 destruct (Hsub x Hx') as [->|H]; [contradiction|exact H].
+            * intros y Hy. assert (y <> v) by (intros ->; contradiction).
+              destruct (zmem y (l1 ++ v :: l2)) eqn:A, (zmem y (l1 ++ l2)) eqn:B; try reflexivity.
+              -- apply zmem_In in A. apply in_app_iff in A. cbn in A.
+                 assert (In y (l1 ++ l2)) by (apply in_app_iff; destruct A as [A|[A|A]]; [tauto|congruence|tauto]).
+                 apply zmem_In in H0. congruence.
+              -- apply zmem_In in B. assert (In y (l1 ++ v :: l2)) by (apply in_app_iff in B; apply in_app_iff; cbn; tauto).
+                 apply zmem_In in H0. congruence.
+          + rewrite (IHv Hvs' cl Hcl); [lia|]. intros x Hx. destruct (Hsub x Hx) as [->|H]; [|exact H].
+            apply zmem_In in Hx. congruence. }
+      rewrite Hc. lia.
+    + assert (Z0 : list_sum (map (fun _ : Z => 0) vs) = 0) by (clear; induction vs; cbn; auto). rewrite Z0. lia.
+Qed.
+
+Lemma zsum_of_nat (l : list nat) : zsum (map Z.of_nat l) = Z.of_nat (list_sum l).
+Proof. induction l as [|x l IH]; [reflexivity|]. cbn [map]. rewrite zsum_cons, list_sum_cons, IH. lia. Qed.
+
+(* "reproduces the clique-size profile": the j-th column of the tabulated rows totals
+   motif_sizes[j] * (number of cover cliques of that size) -- the stub count C01 divides by the size *)
+Theorem cover_profile c zero rows :
+  ValidCover c zero -> cover_rows c = Ok rows ->
+  forall j, j < length (motif_sizes c) ->
+    let s := nth j (motif_sizes c) 0 in
+    zsum (col j rows) = Z.of_nat (s * length (filter (fun cl => length cl =? s) c)).
+Proof.
+  intros V E j Hj s. rewrite (cover_rows_spec c zero V) in E. injection E as <-.
+  set (n := length (vertex_ids c)). set (vs := map (fun r => (zero + Z.of_nat r)%Z) (seq 0 n)).
+  assert (Hcol : col j (map (fun r => spec_row c (motif_sizes c) (zero + Z.of_nat r)) (seq 0 n))
+                 = map Z.of_nat (map (count_cl c s) vs)).
+  { unfold col, vs. rewrite !map_map. apply map_ext. intros r. unfold spec_row.
+    rewrite (nth_indep _ 0%Z (Z.of_nat (count_cl c 0 (zero + Z.of_nat r)))) by (rewrite map_length; exact Hj).
+    rewrite (map_nth (fun s0 => Z.of_nat (count_cl c s0 (zero + Z.of_nat r)))). reflexivity. }
+  rewrite Hcol, zsum_of_nat. f_equal. apply count_cl_sum.
+  - unfold vs. apply FinFun.Injective_map_NoDup; [intros a b H; lia|apply seq_NoDup].
+  - exact (vc_nodup _ _ V).
+  - intros cl x Hcl Hx. assert (H : In x (concat c)) by (apply in_concat; exists cl; split; assumption).
+    apply (vc_contig _ _ V) in H. unfold vs. apply in_map_iff. exists (Z.to_nat (x - zero)).
+    split; [lia|apply in_seq; fold n in H; lia].
+Qed.
+
+(* malformed covers *)
+Lemma cover_rows_empty : cover_rows [] = Err E_Value.
+Proof. reflexivity. Qed.
